@@ -60,6 +60,9 @@ def jobs(tier):
     for ub in ["auto", "mean", "scalar", True, False]:
         for so in [[(1, 0), (0, 1), (0, 0)], [(1, 1), (2, 0)]]:
             out.append(("gvc.props.c06", "ob_bias", dict(D=2, sout=so, use_bias=ub, gs=[1, 4, 5, 6] if q else list(range(8)))))
+    # dependency: "g.x" in the statement is the library's action; the obligations use act_spec (owned by C02)
+    from .common import dep_jobs
+    out += dep_jobs("gvc.props.c02", lambda fn, kw: fn == "ob_entry" and kw["D"] >= 2)
     return out
 
 
